@@ -14,6 +14,7 @@ import (
 	"time"
 
 	ysgo "github.com/remieven/ysgo"
+	"github.com/remieven/ysgo/internal/rng"
 	"github.com/remieven/ysgo/variable"
 )
 
@@ -59,6 +60,8 @@ type rngCase struct {
 	Script    string                 `json:"script"`
 	Choices   []int                  `json:"choices"`
 	Contracts map[string]rngContract `json:"contracts"` // variable name or inline tag -> contract
+	Faulty    bool                   `json:"faulty"`    // the script contains a deliberate run-time fault
+	Family    string                 `json:"family,omitempty"`
 }
 
 type rngDraw struct {
@@ -87,6 +90,22 @@ type rngRes struct {
 	Node string   `json:"node"`
 	Text string   `json:"text"`
 	Opts []rngOpt `json:"opts"`
+	Err  string   `json:"err"` // error: its message (errors of equal runs are identical, message included)
+}
+
+func rngASCII(s string, max int) string {
+	b := []byte{}
+	for _, r := range s {
+		if r < 32 || r > 126 || r == '"' || r == '\\' {
+			b = append(b, '?')
+		} else {
+			b = append(b, byte(r))
+		}
+		if len(b) >= max {
+			break
+		}
+	}
+	return string(b)
 }
 
 type rngEvent struct {
@@ -191,7 +210,11 @@ func rngRun(c *rngCase, run int, mode string, between func()) []rngEvent {
 		if pv != nil {
 			k = "panic"
 		}
-		emit(0, rngRes{K: k, Node: "load"}, nil, nil)
+		msg := ""
+		if err != nil {
+			msg = rngASCII(err.Error(), 300)
+		}
+		emit(0, rngRes{K: k, Node: "load", Err: msg}, nil, nil)
 		steps = 1
 	} else {
 		seen := map[string]bool{}
@@ -217,7 +240,7 @@ func rngRun(c *rngCase, run int, mode string, between func()) []rngEvent {
 			case pv != nil:
 				res.K = "panic"
 			case nerr != nil:
-				res.K = "error"
+				res.K, res.Err = "error", rngASCII(nerr.Error(), 300)
 			case el == nil:
 				res.K = "end"
 			case el.Line != nil:
@@ -327,7 +350,10 @@ func rngGenSeed(rnd *rand.Rand) string {
 	return string(b)
 }
 
+func (g *rngGen) pick(l []string) string { return l[g.rnd.Intn(len(l))] }
+
 type rngGen struct {
+	faulty    bool
 	rnd       *rand.Rand
 	contracts map[string]rngContract
 	nvar      int
@@ -445,9 +471,23 @@ func (g *rngGen) stmts(b *strings.Builder, indent string, depth, n int) {
 			// a line after the group keeps two groups from ever being adjacent
 			g.nline++
 			fmt.Fprintf(b, "%sL%d after\n", indent, g.nline)
-		case r < 96:
-			// a fault in the middle: the error must be reproduced as well
-			fmt.Fprintf(b, "%s<<set $e%d = dice(\"six\")>>\n", indent, g.nline)
+		case r < 97:
+			// a fault in the middle: the error must be reproduced as well, message included
+			g.faulty = true
+			switch g.rnd.Intn(6) {
+			case 0:
+				fmt.Fprintf(b, "%s<<set $e%d = dice(\"six\")>>\n", indent, g.nline)
+			case 1: // a computed jump whose destination is a drawn number
+				fmt.Fprintf(b, "%s<<jump {dice(3)}>>\n", indent)
+			case 2: // a condition that is a drawn number
+				fmt.Fprintf(b, "%s<<if random_range(1, 4)>>\n%sL%d never\n%s<<endif>>\n", indent, indent, g.nline, indent)
+			case 3: // a line condition that is a drawn number
+				fmt.Fprintf(b, "%sL%d cond <<if dice(4)>>\n", indent, g.nline)
+			case 4: // a command whose name is a drawn number
+				fmt.Fprintf(b, "%s<<{dice(2)} now>>\n", indent)
+			default: // a drawn number where the operator wants a boolean / a string
+				fmt.Fprintf(b, "%s<<set $e%d = %s>>\n", indent, g.nline, g.pick([]string{"dice(6) and true", "\"a\" + random()", "not random_range(0, 1)", "random() < \"x\""}))
+			}
 		default:
 			fmt.Fprintf(b, "%sL%d plain\n", indent, g.nline)
 		}
@@ -470,11 +510,40 @@ func rngGenCase(rnd *rand.Rand, id int) *rngCase {
 		}
 		b.WriteString("===\n")
 	}
-	c := &rngCase{ID: id, Seed: rngGenSeed(rnd), Script: b.String(), Contracts: g.contracts}
+	c := &rngCase{ID: id, Seed: rngGenSeed(rnd), Script: b.String(), Contracts: g.contracts, Faulty: g.faulty}
 	for i := 0; i < 8; i++ {
 		c.Choices = append(c.Choices, rnd.Intn(6))
 	}
 	return c
+}
+
+// rngExtremeCases looks, with the library's own seeded source, for seeds whose stream holds a
+// draw within 1e-6 of either end of [0,1) among its first `depth` draws, and builds for each a
+// script that makes random() consume the stream up to that draw and exposes it: the range
+// contract of random() at the edge of its interval (a rounding or scaling of the draw shows
+// there and practically nowhere else).
+func rngExtremeCases(rnd *rand.Rand, firstID, seeds, depth int) []*rngCase {
+	var cases []*rngCase
+	for k := 0; k < seeds && len(cases) < 40; k++ {
+		seed := rngGenSeed(rnd)
+		src, err := rng.NewRNG(seed)
+		if err != nil || src == nil {
+			continue
+		}
+		for i := 1; i <= depth; i++ {
+			f := src.Float()
+			if f >= 1e-6 && f < 1-1e-6 {
+				continue
+			}
+			script := fmt.Sprintf("title: Start\n---\n<<set $n = 1>>\n<<jump Loop>>\n===\ntitle: Loop\n---\n"+
+				"<<if $n < %d>>\n<<set $n = $n + 1>>\n<<set $w = random()>>\n<<jump Loop>>\n<<endif>>\n"+
+				"<<set $f1 = random()>>\nL1 edge f2=<{floor($f1 * 100)}>\n===\n", i)
+			cases = append(cases, &rngCase{ID: firstID + len(cases), Seed: seed, Script: script, Choices: []int{0},
+				Contracts: map[string]rngContract{"f1": {Kind: "random"}, "f2": {Kind: "range", A: 0, B: 99}}, Family: "extreme"})
+			break
+		}
+	}
+	return cases
 }
 
 // ---------------------------------------------------------------- disturbance
@@ -562,6 +631,7 @@ func rngRecord(m map[string]string) error {
 		for i := 1; i <= n; i++ {
 			cases = append(cases, rngGenCase(rnd, i))
 		}
+		cases = append(cases, rngExtremeCases(rnd, n+1, argInt(m, "extreme-seeds", 0), argInt(m, "extreme-depth", 4000))...)
 	}
 	if shards := argInt(m, "shards", 1); shards > 1 && len(cases) >= 2*shards {
 		return rngRecordSharded(m, cases, shards)
@@ -569,7 +639,7 @@ func rngRecord(m map[string]string) error {
 	start := time.Now()
 	perCase := make([][]rngEvent, len(cases))
 	for i, c := range cases {
-		evs := []rngEvent{{Ev: "case", Case: c.ID, Faulty: strings.Contains(c.Script, "dice(\"six\")")}}
+		evs := []rngEvent{{Ev: "case", Case: c.ID, Faulty: c.Faulty || strings.Contains(c.Script, "dice(\"six\")")}}
 		evs = append(evs, rngRun(c, 1, "first", nil)...)
 		evs = append(evs, rngRun(c, 2, "again", nil)...)
 		d := newRngDisturber(rnd)
